@@ -12,6 +12,7 @@ CONSTANTS
   Leeways <- None_
   Deviations <- NoDev
   Variants <- Mech
+  Guests = FALSE
   TagTest = "isnone"
   BoxForm = "minmax"
 INVARIANT C03_Mirror
